@@ -1,6 +1,7 @@
 """C08 — cmap-only fonts: no character is lost, duplicated or moved across clusters."""
 import os, sys, unicodedata
 import vlib, fontbuild
+import _lattice as L
 
 sys.path.insert(0, os.path.join(os.path.dirname(os.path.dirname(os.path.abspath(__file__))), "gens"))
 
@@ -708,12 +709,23 @@ def thai_stream(ctx, r, n):
                    canon=lambda x: "panic" if x.startswith("panic") else x)
 
 
+LATTICE_RULE = ("font support lattice (tools/props/_lattice.py): every character with a canonical decomposition (key families — "
+                "the scripts with a dedicated shaper, singletons, spaces, multi-level marks — exhaustively, the Latin / Greek / "
+                "CJK bulk sampled in quick), sample Hangul syllables, General Punctuation and the spaces x cmap-only fonts for "
+                "every subset of {c, the halves and inner pieces of its decomposition, U+0020, U+2010, U+2011, U+25CC} x one "
+                "script per shaper (default, arabic, hebrew, thai, hangul, indic, khmer, myanmar, use; dispatch read from the "
+                "compiled crate) and the script of c's block x {c, c + mark, base + c, base + c + mark}; kept: the font maps "
+                "every character of the text (the property's premise); oracle as in `conservation`: per output cluster the "
+                "characters recovered from the glyphs are canonically equivalent to the input characters of the cluster")
+
+
 def run(ctx):
     ctx.assumptions += [
         "canonical equivalence is decided with CPython's unicodedata (Unicode 14): alphabets are restricted to characters assigned there",
         "the syllabic shapers (Indic, USE, Khmer, Myanmar) are not modelled in Lean: for them the property rests on this search only",
         "C08_default_shaper_conserves is about RbModel/Pipeline.lean (default shaper, fonts without layout tables), tied to the crate by the pipeline-shape stream",
         "C08_hebrew_compose_canonical / C08_shaper_callbacks_canonical are about the answers of the shapers' own compose / decompose callbacks as probed on the compiled crate (Gen/HebrewCompose.lean, Gen/ShaperCallbacks.lean: hook verif::normalize::probe_compose / probe_decompose) over the blocks of their scripts, judged against CPython's canonical data (Gen/NormRef.lean); the same answers are shaped by the callback-compositions search",
+        "C08_decompose_current_conserves is about Norm.decomposeCurrentCharacter (RbModel/Norm.lean: decompose / decompose_current_character in both modes), tied to the crate by the norm-run-lattice stream (hook verif::normalize::normalize_vs, every normalization preference, lattice requests of tools/props/_lattice.py); the support-lattice search carries the same statement through shape() for every shaper",
         "C08_vs_round_keeps / C08_vs_round_chars are about Norm.vsLoop (RbModel/Norm.lean: handle_variation_selector_cluster with cmap format 14 as a parameter), tied to the crate by the norm-run-selectors stream (hook verif::normalize::normalize_vs)",
     ]
     ctx.regen()
@@ -731,7 +743,20 @@ def run(ctx):
     U9 = C09.UData(shim)
     sel_lines = [ln for ln in C09.gen_run_lines(ctx.rng("norm-selectors"), ctx.budget(8000, 150000), U9)
                  if any(c in U9.vs for c, _, _ in C09.parse_text_tok(ln.split()[9]))]
-    ctx.correspond("norm-run-selectors", lines=sel_lines, classify=C09.classify_run)
+    dis = ctx.correspond("norm-run-selectors", lines=sel_lines, classify=C09.classify_run)
+    # a model / crate disagreement is promoted into shape() inputs (the request's own font, one script per shaper), judged by
+    # the conservation oracle; then the font support lattice: every decomposable character x every subset of the glyphs
+    # its normalization can depend on x every shaper, on fonts that map every character of the text
+    env = L.Env(shim)
+    L.promote_norm_run(ctx, shim, env, dis, ctx.budget(40, 300), [L.judge_conservation_p], "norm-run-selectors")
+    # C08_decompose_current_conserves is a statement about Norm.decomposeCurrentCharacter in every mode: its tie to the crate
+    # is the same protocol on lattice requests (multi-level decompositions on fonts with partial support)
+    dis2 = ctx.correspond("norm-run-lattice", lines=L.lattice_run_lines(ctx.rng("norm-lattice"), ctx.budget(6000, 150000), 1),
+                          classify=C09.classify_run)
+    if dis2:
+        L.promote_norm_run(ctx, shim, env, dis2, ctx.budget(40, 300), [L.judge_conservation_p], "norm-run-lattice")
+    L.search(ctx, shim, env, ctx.rng("lattice"), ("decomposable", "plain"),
+             lambda c, S, text, tag: all(x in S for x in text), [L.judge_conservation], LATTICE_RULE)
     recomposed_witness(ctx, shim)
     callback_search(ctx, shim, U9)
     pair_search(ctx, shim, ctx.rng("pairs"), ctx.budget(1500, 40000), U9)
@@ -740,6 +765,10 @@ def run(ctx):
 
 def replay(ctx, rp):
     shim = vlib.build_harness()
+    if rp.get("stream") == L.STREAM:
+        return L.replay(shim, rp, [L.judge_conservation])
+    if rp.get("stream") == L.PROMOTED:
+        return L.replay_promoted(shim, rp, [L.judge_conservation_p])
     o = vlib.run_groups(shim, [[rp["font_line"], rp["request"]]], nproc=1)[0]
     print(o[1])
     if "glyph_chars" in rp:
